@@ -34,5 +34,13 @@ for k, mn in enumerate(["MarshalBinary", "Data", "Equal", "Clone", "String", "op
                   race_entry="RaceBNReadOnlyG1", stubs=["gfpMul/gfpAdd/gfpSub/gfpNeg (assembly) -> writes only its output parameter, arbitrary value", "fmt formatting = empty bodies"],
                   functions=["bn256.(*pointG1).%s" % mn], bound="arbitrary Jacobian coordinates; one call",
                   mutants=[dict(id="C20a", file="pairing/bn256/point.go", old="\tpgtemp := *p.g\n\tpgtemp.MakeAffine()", new="\tpgtemp := p.g\n\tpgtemp.MakeAffine()")] if mn == "Data" else []))
+BQ = "go.dedis.ch/kyber/v4/pairing/bn254."
+bq_contracts = {BQ + k: dict(writes=[0], havoc=True) for k in ["gfpMul", "gfpAdd", "gfpSub", "gfpNeg"]}
+for k, mn in enumerate(["MarshalBinary", "Data", "Equal", "Clone", "String", "operand-of-Add-Neg-Set-Sub", "MarshalSize-EmbedLen", "operands-of-Pair", "G2-MarshalBinary-Equal-Clone-Add-Neg"]):
+    if mn in ("Data", "MarshalSize-EmbedLen"):
+        continue  # bn254 does not support embedding: Data / EmbedLen panic "unsupported operation" by design
+    H.append(dict(name="bn254.G1.%s" % mn, pkg="./pairing/bn254", files=["harness/C04/gen_bn254.go"], entry="HarnessBNReadOnlyG1", mode="int", params={"p0": k}, contracts=bq_contracts, approx_bitops=True, unwind=20000, exec_timeout_s=1200,
+                  race_entry="RaceBNReadOnlyG1", stubs=["gfpMul/gfpAdd/gfpSub/gfpNeg (assembly) -> writes only its output parameter, arbitrary value", "fmt formatting = empty bodies"],
+                  functions=["bn254.(*pointG1).%s" % mn], bound="arbitrary Jacobian coordinates; one call", tiers=(["quick", "thorough"] if mn in ("MarshalBinary", "Data", "operands-of-Pair") else ["thorough"])))
 json.dump(dict(property="C20", harnesses=H), open(os.path.join(os.path.dirname(__file__), "..", "specs", "C20.json"), "w"), indent=1)
 print(len(H))
